@@ -10,8 +10,12 @@ from multiprocessing.connection import wait
 from . import diffwork
 
 
+MAX_TASKS_PER_WORKER = 120   # in-process builds leak a few MB each: recycle the worker
+
+
 def _worker(conn, base: str) -> None:
     diffwork.init_worker(base)
+    done = 0
     while True:
         try:
             msg = conn.recv()
@@ -21,7 +25,13 @@ def _worker(conn, base: str) -> None:
             return
         fn_name, chunk = msg
         fn = getattr(diffwork, fn_name)
-        conn.send([(i, fn(t)) for i, t in chunk])
+        res = [(i, fn(t)) for i, t in chunk]
+        done += len(chunk)
+        recycle = done >= MAX_TASKS_PER_WORKER
+        conn.send((res, recycle))
+        if recycle:
+            conn.close()
+            return
 
 
 class _W:
@@ -66,35 +76,41 @@ def run_tasks(fn_name: str, tasks: list, base: str, workers: int = 6, chunk: int
                 if w.job is None:
                     continue
                 got = None
-                if w.parent in ready or w.proc.sentinel in ready:
+                dead = False
+                if w.parent.poll(0):
                     try:
-                        if w.parent.poll(0 if w.proc.sentinel in ready else None):
-                            got = w.parent.recv()
-                        elif w.proc.sentinel in ready:
-                            raise EOFError
-                        else:
-                            continue
+                        got = w.parent.recv()
                     except (EOFError, OSError):
-                        # the worker died while running w.job
-                        deaths += 1
-                        if deaths > 500:
-                            raise RuntimeError("workers keep dying")
-                        job = w.job
-                        try:
-                            w.proc.kill()
-                        except Exception:
-                            pass
-                        w.parent.close()
-                        idx = ws.index(w)
-                        ws[idx] = _W(ctxm, base)
-                        if len(job) == 1:
-                            results[job[0][0]] = died(job[0][1]) if died else ("died", job[0][1])
-                        else:
-                            queue.extend([x] for x in job)
-                        continue
-                    for i, r in got:
-                        results[i] = r
-                    w.job = None
+                        dead = True
+                elif not w.proc.is_alive():
+                    dead = True
+                else:
+                    continue
+                if dead:
+                    # the worker died while running w.job
+                    deaths += 1
+                    if deaths > 500:
+                        raise RuntimeError("workers keep dying")
+                    job = w.job
+                    try:
+                        w.proc.kill()
+                    except Exception:
+                        pass
+                    w.parent.close()
+                    ws[ws.index(w)] = _W(ctxm, base)
+                    if len(job) == 1:
+                        results[job[0][0]] = died(job[0][1]) if died else ("died", job[0][1])
+                    else:
+                        queue.extend([x] for x in job)
+                    continue
+                res, recycle = got
+                for i, r in res:
+                    results[i] = r
+                w.job = None
+                if recycle:
+                    w.proc.join(timeout=10)
+                    w.parent.close()
+                    ws[ws.index(w)] = _W(ctxm, base)
     finally:
         for w in ws:
             w.stop()
